@@ -7,10 +7,10 @@ import arr, recorder, vlib
 class Gen:
     """random history generator (abstract actions are executed immediately on the real array)"""
 
-    def __init__(self, seed, conf=None, names=None, maxblk=3, spare=True, profile="mixed"):
+    def __init__(self, seed, conf=None, names=None, maxblk=3, spare=True, profile="mixed", data_seed=None):
         self.rng = random.Random(seed)
         self.conf = conf or arr.Conf(nd=self.rng.choice([2, 2, 3]), np=self.rng.choice([1, 2, 2, 3]), copies=2)
-        self.a = arr.Array(self.conf, seed=seed)
+        self.a = arr.Array(self.conf, seed=seed if data_seed is None else data_seed)
         self.names = names or ["A", "B", "E", "F", "K"]
         self.maxblk = maxblk
         self.nextv = 1
@@ -167,9 +167,95 @@ class Gen:
         "mixed": [("add", 20), ("touch", 4), ("delete", 8), ("corrupt", 6), ("corrupt_parity", 4), ("lose_disk", 2),
                   ("lose_parity", 2), ("sync", 22), ("check", 8), ("fix", 10), ("scrub", 8), ("diff", 4)],
         "syncheavy": [("add", 30), ("touch", 6), ("delete", 14), ("sync", 40), ("diff", 5), ("check", 5)],
+        "detect": [("add", 8), ("delete", 3), ("corrupt", 22), ("corrupt_parity", 16), ("sync", 14), ("check", 18),
+                   ("scrub", 14), ("fix", 6)],
         "damage": [("add", 10), ("delete", 6), ("corrupt", 14), ("corrupt_parity", 8), ("lose_disk", 6), ("lose_parity", 5),
                    ("sync", 18), ("check", 10), ("fix", 16), ("scrub", 8)],
     }
+
+    # ---- C01: build a fragmented, clean array; damage at most NP devices (or NP blocks per stripe); fix; check
+    def c01_history(self, rounds=2):
+        rng = self.rng
+        for _ in range(rounds):
+            # growth phase with deletions and partial syncs -> fragmented allocation
+            for _ in range(rng.randint(2, 5)):
+                for _ in range(rng.randint(1, 3)):
+                    desc = rng.choice([self.op_add, self.op_add, self.op_delete, self.op_touch])()
+                    if desc:
+                        self.rec.env(desc)
+                        self.steps.append(desc)
+                self.a.clock += 10
+                r, out = self.rec.sync(*(["-E"] if rng.random() < 0.5 else []))
+                self.steps.append("sync -> %s" % out["exit"])
+            r, out = self.rec.sync("-E")
+            self.steps.append("sync -E -> %s" % out["exit"])
+            if out["exit"] != "ok":
+                return
+            st = self.recorded()
+            npar, nd = self.conf.np, self.conf.nd
+            mode = rng.choice(["devices", "devices", "stripes"])
+            if mode == "devices":
+                k = rng.randint(1, npar)
+                devs = rng.sample([("d", i) for i in range(nd)] + [("p", l) for l in range(npar)], min(k, nd + npar))
+                for kind, i in devs:
+                    if kind == "d":
+                        how = rng.choice(["lose", "lose", "files", "corrupt"])
+                        if how == "lose":
+                            self.a.lose_disk(i); desc = "lose disk %d" % i
+                        elif how == "files":
+                            gone = [f for f in self.files(i) if rng.random() < 0.6]
+                            for f in gone:
+                                self.a.remove(i, f)
+                            desc = "delete %d/%s" % (i, ",".join(gone))
+                        else:
+                            done = []
+                            for n, f in st["fs"][str(i)].items():
+                                for b in range(len(f["b"])):
+                                    if rng.random() < 0.5:
+                                        full = f["sz"] - b * arr.BS >= arr.BS
+                                        self.a.corrupt_block(i, n, b, rng.choice(["flip", "byte", "whole"] + (["zero"] if full else [])))
+                                        done.append("%s[%d]" % (n, b))
+                            desc = "corrupt on disk %d: %s" % (i, " ".join(done))
+                    else:
+                        if rng.random() < 0.6:
+                            self.a.lose_parity(i); desc = "lose parity %d" % i
+                        else:
+                            npos = len(st["par"][i])
+                            hit = [p for p in range(npos) if rng.random() < 0.6]
+                            for p in hit:
+                                self.a.corrupt_parity(i, p, rng.choice(["flip", "zero", "whole"]))
+                            desc = "corrupt parity %d at %s" % (i, hit)
+                    self.rec.env(desc, damage=True)
+                    self.steps.append(desc)
+            else:
+                # per stripe: up to NP damaged blocks chosen independently among data blocks and parity blocks
+                npos = len(st["info"])
+                where = {}
+                for d in self.rec.D:
+                    for n, f in st["cf"][d].items():
+                        for i, b in enumerate(f["bl"]):
+                            where[(int(d), b["pos"])] = (n, i, f["sz"])
+                done = []
+                for p in range(npos):
+                    cands = [("d", d) for d in range(nd) if (d, p) in where] + [("p", l) for l in range(npar)]
+                    for kind, i in rng.sample(cands, min(len(cands), rng.randint(0, npar))):
+                        if kind == "d":
+                            n, bi, sz = where[(i, p)]
+                            full = sz - bi * arr.BS >= arr.BS
+                            self.a.corrupt_block(i, n, bi, rng.choice(["flip", "byte", "whole"] + (["zero"] if full else [])))
+                            done.append("d%d/%s[%d]" % (i, n, bi))
+                        else:
+                            self.a.corrupt_parity(i, p, rng.choice(["flip", "zero", "whole"]))
+                            done.append("p%d@%d" % (i, p))
+                desc = "stripe damage " + " ".join(done)
+                self.rec.env(desc, damage=True)
+                self.steps.append(desc)
+            self.a.clock += 10
+            r, out = self.rec.fix()
+            self.rec.lines[-1]["args"]["expect_c01"] = True
+            self.steps.append("fix -> %s" % out["exit"])
+            r, out = self.rec.check()
+            self.steps.append("check -> %s" % out["exit"])
 
     def step(self):
         ops = self.WEIGHTS[self.profile]
@@ -191,6 +277,9 @@ class Gen:
         self.steps.append(desc)
 
     def run(self, n):
+        if self.profile == "c01":
+            self.c01_history(rounds=max(1, n // 12))
+            return self.rec
         for _ in range(n):
             self.step()
         return self.rec
